@@ -36,7 +36,7 @@ META = {
     "C05": M("exploration", "§6 C05",
         "Feeds syntactically valid ClientHellos from an independent byte-level generator (foreign encodings, GREASE, 60 B..16 KiB, legacy versions, all ECH non-acceptance states, three key-set kinds, real crypto/tls TLS1.2/1.3 flights) "
         "through NewConn followed by random record streams in both directions under random chunking; byte equality at the taps and agreement of ServerName/ALPNProtos with crypto/tls' ClientHelloInfo (or the independent codec) decide." + HELD,
-        "Single-record hellos with one host_name entry and unique extension types only; crypto/tls and tlswire are the independent stacks.",
+        "Unique extension types only; server_name lists may carry entries of other name types; crypto/tls and tlswire are the independent stacks.",
         "runtime monitor: pass-through conservation at transport taps + differential accessor check"),
     "C06": M("exploration", "§6 C06",
         "Executes every history of client/backend records up to a length bound (3 quick, 4 thorough; 19 record kinds incl. each ill-formed retry) and PRNG-drawn histories up to length 14 on the real Conn, "
@@ -58,51 +58,51 @@ META = {
     "C18": M("exploration", "§6 C18",
         "Runs Dial inside testing/synctest bubbles (virtual time) with a scripted DialFunc: all 88,880 scenarios of a reduced grid with <= 3 targets are enumerated and 120k (2M thorough) larger ones PRNG-drawn; a trace-specification checker over "
         "start/finish/close/return events stamped with virtual time decides order, concurrency bound, stagger delay, per-attempt timeout, first-success-wins, closing of late winners, joined errors, prompt cancellation, cancelled late attempts, "
-        "and a goroutine scan at quiescence detects leaks; thorough repeats the grid under the race detector." + HELD,
+        "and a goroutine scan at quiescence detects leaks; a small workload uses a connection type without Close() (like *quic.Conn) - its result is the recorded finding K1 (KNOWN-FINDING line, see known_findings.txt); thorough repeats the grid under the race detector." + HELD,
         "Virtual time serialises timer events; same-instant events may be ordered either way and are judged leniently. go1.26.8 toolchain.",
         "runtime monitor: offline trace checker over virtual-time event logs (testing/synctest) + goroutine leak scan; race detector"),
     "C09": M("exploration", "§6 C09",
         "Metamorphic check: for offers sealed to a target key K, every key list of length <= 3 (K at each position or absent; neighbours from same/other id x same/disjoint/partial suites x same/other public name) and sampled lists of length 4 "
-        "must give the same acceptance, error class, forwarded bytes and accessors as the single-key (or no-key) baseline, for the first hello and for hello -> HRR -> retried hello." + HELD,
+        "must give the same acceptance, error class, forwarded bytes and accessors as the single-key (or no-key) baseline, for the first hello and for hello -> HRR -> retried hello; every second list is handed over through several WithKeys options." + HELD,
         "Baselines come from the same run; three (thirty in thorough) target offers.",
         "runtime monitor: metamorphic equality against in-run baselines over enumerated key lists"),
     "C10": M("exploration", "§6 C10",
         "Produces (does not enumerate) the schedules of NewConn's context watcher: GOMAXPROCS 1..16 x hello already buffered / delivered late / in two halves x context cancelled immediately after the return, after a yield, by a racing goroutine, "
         "by deadline expiry or never x background load; a transport tap logs every SetDeadline and a context wrapper logs when the watcher first evaluates ctx.Done(), both on one sequence counter; after quiescence the Conn must still read and write. "
-        "A second stage in virtual time (testing/synctest) checks that a blocked NewConn fails at exactly the instant its context ends, for every 7th stall offset." + HELD,
+        "A second stage in virtual time (testing/synctest) checks that a blocked NewConn fails at exactly the instant its context ends, for every 7th stall offset, on transports whose writes succeed or block, also when NewConn is blocked writing its own alert." + HELD,
         "Only schedules the Go runtime produced; the evidence reports how many trials had the watcher scheduled after NewConn's work was done and the context had ended (late_watcher_* counters, floor 200).",
         "runtime monitor: sequence-numbered transport/context taps under scheduler stress (GOMAXPROCS sweep) + virtual-time promptness check"),
     "C16": M("exploration", "§6 C16",
         "Sequential histories (resolve, clock steps at ttl-1/ttl/ttl+1, zone changes incl. CNAME repointing, failure on/off, cache resizing) on a virtual clock (hook VerifSetClock) against a versioned fake DoH zone whose answers identify the data version "
         "they came from, judged by an exact model with the server's query log (never stale, failures not cached, re-query after expiry, no upstream query within TTL; smallest TTL over ALL records of the response incl. CNAMEs and extras, 0 = uncacheable); "
-        "concurrent phases of 2..16 goroutines with held/released upstream queries whose recorded call/return histories are checked per (name, qtype) with porcupine against a nondeterministic cache model; the same workload under the race detector (stage race)." + HELD,
+        "concurrent phases of 2..16 goroutines with held/released upstream queries whose recorded call/return histories are checked per (name, qtype) with porcupine against a nondeterministic cache model; a deadlock monitor reports calls that are all parked on a lock inside the library; the same workload under the race detector (stage race)." + HELD,
         "Clock and zone change only at barriers in the concurrent part; porcupine Unknown (60 s) would be inconclusive; responses without any record may be cached up to 300 s.",
         "runtime monitor: model-based history checking (exact model + porcupine linearizability) over recorded call logs, virtual clock hook, race detector"),
     "C17": M("exploration", "§6 C17",
         "Runs Dial against generated DNS universes served by a fake DoH server with a recording DialFunc that returns scripted outcomes (ok, error, ECH rejection with/without retry configs, repeated rejection); an oracle over the invocation log checks: "
         "no attempt without an ECH list under RequireECH, caller list/ServerName never replaced, list provenance per HTTPS record (computed from the zone model, not from the code under test), ServerName = the caller's host, exactly one retry "
-        "to the same address with exactly the retry configs, no leak of a retry list to later targets, caller's tls.Config unchanged." + HELD,
+        "to the same address with exactly the retry configs, no leak of a retry list to later targets, caller's tls.Config unchanged; address forms include host, host:port, https:// URIs and IP literals." + HELD,
         "Lenient where the statement is silent (tied priorities, target order, empty non-nil list only counted).",
         "runtime monitor: DialFunc argument tap + provenance oracle against a zone model"),
     "C11": M("exploration", "§6 C11",
         "Runs the real codec on seed-determined specs covering all ids, every public-name length 1..255, key lengths and suite lists; an independent section-4 parser and live crypto/tls client/server ECH handshakes act as oracles; "
-        "every strict prefix and single-byte mutation of sampled encodings goes through the parser under a panic guard." + HELD,
+        "every strict prefix and single-byte mutation of sampled encodings goes through the parser under a panic guard. Public names outside the plain multi-label LDH shape and empty vectors may be refused by the producers, but a config they do produce must be usable by crypto/tls (produced => accepted)." + HELD,
         "Trusts the harness' independent parser and crypto/tls of go1.24.0 as the conforming peer; sampled, not exhaustive, over spec contents.",
         "runtime monitor: differential oracle (independent parser + live crypto/tls peers) over generated and mutated encodings"),
     "C12": M("exploration", "§6 C12",
         "Decodes hostile DNS inputs (45 compression-pointer shapes at 13 name positions, lying counts, truncated/over-long RDATA for every decoder type, mutations, up to 64 KiB) in helper processes that log each input before decoding and "
-        "self-monitor cumulative heap allocation and CPU time against a polynomial budget, check the Go type of every decoded RR, and serve a sample as DoH bodies to a real Resolver under a panic guard; thorough adds a race/checkptr build." + HELD,
+        "self-monitor cumulative heap allocation and CPU time against a polynomial budget, check the Go type of every decoded RR, and serve a sample as DoH bodies to a real Resolver under a panic guard; a second workload serves DoH answers with unusual HTTP framing (no or wrong Content-Length, 0, 65535, 65536, 16 MiB announced, non-200; thorough: malformed headers) to dns.DoH and Resolve; thorough adds a race/checkptr build." + HELD,
         "Budgets: 1 MiB + 16 n^2 bytes allocated and 5 CPU-seconds per call (never wall-clock). Inputs are sampled.",
         "runtime monitor: resource-budget sanitizer (allocation/CPU counters) + panic guard + type-table assertion in isolated child processes"),
     "C13": M("exploration", "§6 C13",
         "Round-trips generated messages through Bytes/DecodeMessage, compares Bytes() byte for byte with an independent RFC 1035/9460 encoder and field by field with golang.org/x/net/dns/dnsmessage, decodes dnsmessage-built packets "
-        "(with name compression, all record types of the statement, arbitrary SvcParams) and checks AddPadding (length multiple of 128, question preserved, one padding option) for every name length 1..253." + HELD,
+        "(with name compression, all record types of the statement, arbitrary SvcParams) and checks AddPadding (length multiple of 128, question preserved, one padding option) for every name length 1..253; every fourth encoded message is respelled (FQDN names with a trailing dot, IPv4 addresses in 16-byte net.IP form)." + HELD,
         "x/net dnsmessage v0.42.0 and the harness' RFC 9460 RDATA codec are the independent side; representation choices (root as \"\", nil vs empty) are normalised.",
         "runtime monitor: differential testing against an independent codec in both directions"),
     "C14": M("exploration", "§6 C14",
         "Resolves generated zone universes (alias chains and loops, CNAME chains, service records, error rcodes, poisoned answers owned by other names) through a fake DoH server built on an independent encoder that logs every query as seen on the wire; "
-        "a relational oracle checks query-name legality and provenance, the query bound, record ownership/priority order, address attribution, rcode mapping and the treatment of over-long names." + HELD,
-        "Relational (not exact) on long alias chains; mixed alias/service RRsets are not generated; cache disabled.",
+        "a relational oracle checks query-name legality and provenance, the query bound, record ownership/priority order, address attribution, rcode mapping and the treatment of over-long names. Every fourth case runs on a Resolver with a history (same name resolved in another universe, virtual clock moved beyond every TTL); IP literals in every spelling and names with an empty label must never reach the wire." + HELD,
+        "Relational (not exact) on long alias chains; mixed alias/service RRsets are not generated; cache disabled except in the cases with a history.",
         "runtime monitor: server-side query log + relational oracle against a zone model"),
     "C15": M("exploration", "§6 C15",
         "Compares the sequence yielded by Targets with a reference implementation written from the statement for random ResolveResults x six networks x early termination points, and deep-compares the result "
@@ -117,7 +117,7 @@ META = {
         "runtime monitor: server-side request/connection logs + DialFunc tap against a decision-table model"),
     "C20": M("exploration", "§6 C20",
         "Runs histories of publishes against a fake Cloudflare API (pagination, PATCH merge, failure injection, full request log) and compares results, request log and the stored records with a model store: one result per target in order, "
-        "only the ech parameter changed, no PATCH when current, records on later pages found, non-targets untouched, failures isolated." + HELD,
+        "only the ech parameter changed, no PATCH when current, records on later pages found, non-targets untouched, failures isolated; every third history the API omits JSON members that hold a zero value." + HELD,
         "The fake API follows Cloudflare's documented envelope (count = items on this page); HTTPS names unique per zone.",
         "runtime monitor: request-log and store-diff oracle against a model of the API"),
 }
